@@ -200,6 +200,12 @@ def step (_ : Unit) (line : String) : Unit × String :=
         pure (showR showII (directClientPack (← int? mtu) (← addr? target) (fun _ => r) (← ps.toNat?) (← pl.toNat?)))
     | ["dialsplit", target, plen, draw] => do
         pure (showR (fun (x : Int × Int × Int) => s!"{x.1} {x.2.1} {x.2.2}") (dialStreamSplit (← addr? target) (← plen.toNat?) (← draw.toNat?)))
+    | ["s5udpsession", auth, res, h] => do
+        let r ← ipParam? res
+        pure (match s5UDPNewSession (← bool? auth) [1, 4, 117, 115, 101, 114, 4, 112, 97, 115, 115] (fun _ => r) (← ofHex? h) with
+          | .ok x => "ok " ++ (if x.1 then Addr.ip4 x.2.1 x.2.2 else Addr.ip6 x.2.1 x.2.2).render
+          | .err _ => "err session"       -- over a real TCP socket the error kind (EOF / reset) is the kernel's business
+          | .panic => "panic")
     | ["directpack", target, targetOnly, srcIsTarget, plen, maxLen] => do
         pure (showR (fun (_ : Unit) => "packed") (directServerPack (← addr? target) (← bool? targetOnly) (← bool? srcIsTarget) (← plen.toNat?) (← maxLen.toNat?)))
     | ["directcfg", target, targetOnly] => do
